@@ -273,6 +273,7 @@ func (h *hist) reopen() {
 	h.applyMode()
 	e.classes["reopen"] = true
 	h.closedTx = nil
+	h.snapDue = true
 }
 
 func TestHistory(t *testing.T) {
@@ -451,7 +452,13 @@ func TestHistory(t *testing.T) {
 			},
 			"": func(t *rapid.T) {
 				h.steps++
-				e.checkCommitted(fmt.Sprintf("invariant after step %d", h.steps))
+				// the committed state can only move at a commit / flush / reopen: whole-state
+				// comparison after those and every 5th step, a cheap probe otherwise
+				if h.snapDue || h.steps%5 == 0 {
+					e.checkCommitted(fmt.Sprintf("invariant after step %d", h.steps))
+				} else {
+					e.probeCommitted(t, fmt.Sprintf("invariant (probe) after step %d", h.steps))
+				}
 				if h.snapDue || h.steps%10 == 0 {
 					h.snapDue = false
 					if h.writer != nil {
